@@ -1831,9 +1831,25 @@ class FloodFillSubsetState(MaskSubsetState):
     @classmethod
     def __setgluestate__(cls, rec, context):
         att = context.object(rec['attribute'])
-        return cls(att.parent, att,
-                   context.object(rec['start_coords']),
-                   context.object(rec['threshold']))
+        start_coords = context.object(rec['start_coords'])
+        threshold = context.object(rec['threshold'])
+        if att.parent is not None:
+            return cls(att.parent, att, start_coords, threshold)
+        # The dataset that the attribute belongs to has not been restored yet
+        # (it comes later in the data collection), so we finish setting up
+        # the state in __setgluestate_callback__ once it has been.
+        self = cls.__new__(cls)
+        self._att = att
+        self._start_coords = tuple(start_coords)
+        self._threshold = float(threshold)
+        return self
+
+    def __setgluestate_callback__(self, context):
+        if getattr(self, '_data', None) is None:
+            if self._att.parent is None:
+                raise ValueError("Dataset not restored yet")
+            self.__init__(self._att.parent, self._att,
+                          self._start_coords, self._threshold)
 
 
 class RoiSubsetState3d(RoiSubsetStateNd):
